@@ -204,5 +204,140 @@ impl ReceiverInner {
 //@@ end
 }
 
+// link/shared_inner.rs LinkEndpointInner::reallocate_output_handle (a trait default method, checked once per implementor) and the accessors it goes through
+impl LinkS {
+    /// `self.link().name().to_string()`
+    #[verifier::external_body]
+    pub fn name_string(&self) -> (r: String) ensures r == self.name { unimplemented!() }
+    /// Link::output_handle_mut (link/sender_link.rs, link/receiver_link.rs: `&mut self.output_handle`)
+    #[verifier::external_body]
+    pub fn output_handle_mut(&mut self) -> (r: &mut Option<OutputHandle>)
+        ensures *r == old(self).output_handle, *final(self) == (LinkS { output_handle: *final(r), ..*old(self) }),
+    { unimplemented!() }
+    pub fn session_stop_reason(&self) -> (r: &StopArc) ensures *r == self.session_stop_reason { &self.session_stop_reason }
+}
+impl LinkR {
+    #[verifier::external_body]
+    pub fn name_string(&self) -> (r: String) ensures r == self.name { unimplemented!() }
+    #[verifier::external_body]
+    pub fn output_handle_mut(&mut self) -> (r: &mut Option<OutputHandle>)
+        ensures *r == old(self).output_handle, *final(self) == (LinkR { output_handle: *final(r), ..*old(self) }),
+    { unimplemented!() }
+    pub fn session_stop_reason(&self) -> (r: &StopArc) ensures *r == self.session_stop_reason { &self.session_stop_reason }
+}
+impl SenderInner {
+//@@ fn file=fe2o3-amqp/src/link/sender.rs impl=`~impl<L>LinkEndpointInnerforSenderInner<L>where` name=link as=s_link
+//@@ ret &LinkS
+//@@ spec
+    ensures *r == self.link,
+//@@ end
+//@@ fn file=fe2o3-amqp/src/link/sender.rs impl=`~impl<L>LinkEndpointInnerforSenderInner<L>where` name=link_mut as=s_link_mut
+//@@ ret &mut LinkS
+//@@ spec
+    ensures *r == old(self).link, *final(self) == (SenderInner { link: *final(r), ..*old(self) }),
+//@@ end
+//@@ fn file=fe2o3-amqp/src/link/sender.rs impl=`~impl<L>LinkEndpointInnerforSenderInner<L>where` name=reader_mut as=s_reader_mut
+//@@ ret &mut LinkRx
+//@@ spec
+    ensures *r == old(self).incoming, *final(self) == (SenderInner { incoming: *final(r), ..*old(self) }),
+//@@ end
+//@@ fn file=fe2o3-amqp/src/link/sender.rs impl=`~impl<L>LinkEndpointInnerforSenderInner<L>where` name=buffer_size as=s_buffer_size
+//@@ spec
+    ensures r == self.buffer_size,
+//@@ end
+//@@ fn file=fe2o3-amqp/src/link/sender.rs impl=`~impl<L>LinkEndpointInnerforSenderInner<L>where` name=session_control as=s_session_control
+//@@ ret &SessCtlTx
+//@@ spec
+    ensures *r == self.session,
+//@@ end
+//@@ fn file=fe2o3-amqp/src/link/sender.rs impl=`~impl<L>LinkEndpointInnerforSenderInner<L>where` name=session_stop_reason as=s_session_stop_reason
+//@@ ret &StopArc
+//@@ subst `self.link()` => `self.s_link()` rule=R2
+//@@ spec
+    ensures *r == self.link.session_stop_reason,
+//@@ end
+
+//@@ fn file=fe2o3-amqp/src/link/shared_inner.rs name=reallocate_output_handle as=reallocate_output_handle_s
+//@@ qmark
+//@@ ret Result<(), SenderAttachError>
+//@@ subst `mpsc::channel(` => `mpsc::channel::<LinkIncomingItem>(` rule=R9
+//@@ subst `self.buffer_size()` => `self.s_buffer_size()` rule=optional-R2
+//@@ subst `self.as_new_link_relay(` => `self.sender_as_new_link_relay(` rule=optional-R2
+//@@ subst `self.reader_mut()` => `self.s_reader_mut()` rule=optional-R2
+//@@ subst `.name().to_string()` => `.name_string()` rule=optional-R12
+//@@ subst `self.link()` => `self.s_link()` rule=optional-R2
+//@@ subst `self.session_control()` => `self.s_session_control()` rule=optional-R2
+//@@ subst `self.session_stop_reason()` => `self.s_session_stop_reason()` rule=optional-R2
+//@@ subst `self.link_mut()` => `self.s_link_mut()` rule=optional-R2
+//@@ spec
+    ensures
+        r is Ok ==> final(self).link.output_handle is Some && registered(final(self).link.output_handle->Some_0) is Sender,
+        r is Ok ==> registered(final(self).link.output_handle->Some_0)->Sender_tx.id() == final(self).incoming.id(),                               // [C11.wiring.relay-feeds-this-links-queue] [C01.wiring.relay-feeds-this-links-queue] (re-attach) the relay registered under the link's NEW handle feeds the queue the endpoint now reads -- both ends of the same new channel
+        r is Ok ==> registered(final(self).link.output_handle->Some_0)->Sender_unsettled.id() == old(self).link.unsettled.id(),                     // [C02.wiring.relay-and-link-share-the-unsettled-map] (re-attach)
+        r is Ok ==> registered(final(self).link.output_handle->Some_0)->Sender_flow_state.state.id() == old(self).link.flow_state.state.id()
+            && registered(final(self).link.output_handle->Some_0)->Sender_flow_state.notifier.id() == old(self).link.flow_state.notifier.id(),      // [C08.wiring.relay-and-link-share-the-flow-state] [C08.wiring.grant-wakes-this-links-waiter] (re-attach)
+        final(self).link.unsettled == old(self).link.unsettled && final(self).link.flow_state == old(self).link.flow_state
+            && final(self).link.session_stop_reason == old(self).link.session_stop_reason && final(self).link.local_state == old(self).link.local_state,
+        final(self).session == old(self).session && final(self).outgoing == old(self).outgoing && final(self).buffer_size == old(self).buffer_size,   // [C13.wiring.link-writes-to-its-session] (re-attach) the link stays on its session
+//@@ end
+}
+impl ReceiverInner {
+//@@ fn file=fe2o3-amqp/src/link/receiver.rs impl=`~impl<L>LinkEndpointInnerforReceiverInner<L>where` name=link as=r_link
+//@@ ret &LinkR
+//@@ spec
+    ensures *r == self.link,
+//@@ end
+//@@ fn file=fe2o3-amqp/src/link/receiver.rs impl=`~impl<L>LinkEndpointInnerforReceiverInner<L>where` name=link_mut as=r_link_mut
+//@@ ret &mut LinkR
+//@@ spec
+    ensures *r == old(self).link, *final(self) == (ReceiverInner { link: *final(r), ..*old(self) }),
+//@@ end
+//@@ fn file=fe2o3-amqp/src/link/receiver.rs impl=`~impl<L>LinkEndpointInnerforReceiverInner<L>where` name=reader_mut as=r_reader_mut
+//@@ ret &mut LinkRx
+//@@ spec
+    ensures *r == old(self).incoming, *final(self) == (ReceiverInner { incoming: *final(r), ..*old(self) }),
+//@@ end
+//@@ fn file=fe2o3-amqp/src/link/receiver.rs impl=`~impl<L>LinkEndpointInnerforReceiverInner<L>where` name=buffer_size as=r_buffer_size
+//@@ spec
+    ensures r == self.buffer_size,
+//@@ end
+//@@ fn file=fe2o3-amqp/src/link/receiver.rs impl=`~impl<L>LinkEndpointInnerforReceiverInner<L>where` name=session_control as=r_session_control
+//@@ ret &SessCtlTx
+//@@ spec
+    ensures *r == self.session,
+//@@ end
+//@@ fn file=fe2o3-amqp/src/link/receiver.rs impl=`~impl<L>LinkEndpointInnerforReceiverInner<L>where` name=session_stop_reason as=r_session_stop_reason
+//@@ ret &StopArc
+//@@ subst `self.link()` => `self.r_link()` rule=R2
+//@@ spec
+    ensures *r == self.link.session_stop_reason,
+//@@ end
+
+//@@ fn file=fe2o3-amqp/src/link/shared_inner.rs name=reallocate_output_handle as=reallocate_output_handle_r
+//@@ qmark
+//@@ ret Result<(), ReceiverAttachError>
+//@@ subst `mpsc::channel(` => `mpsc::channel::<LinkIncomingItem>(` rule=R9
+//@@ subst `self.buffer_size()` => `self.r_buffer_size()` rule=optional-R2
+//@@ subst `self.as_new_link_relay(` => `self.receiver_as_new_link_relay(` rule=optional-R2
+//@@ subst `self.reader_mut()` => `self.r_reader_mut()` rule=optional-R2
+//@@ subst `.name().to_string()` => `.name_string()` rule=optional-R12
+//@@ subst `self.link()` => `self.r_link()` rule=optional-R2
+//@@ subst `self.session_control()` => `self.r_session_control()` rule=optional-R2
+//@@ subst `self.session_stop_reason()` => `self.r_session_stop_reason()` rule=optional-R2
+//@@ subst `self.link_mut()` => `self.r_link_mut()` rule=optional-R2
+//@@ spec
+    ensures
+        r is Ok ==> final(self).link.output_handle is Some && registered(final(self).link.output_handle->Some_0) is Receiver,
+        r is Ok ==> registered(final(self).link.output_handle->Some_0)->Receiver_tx.id() == final(self).incoming.id(),                             // [C11.wiring.relay-feeds-this-links-queue] [C01.wiring.relay-feeds-this-links-queue] (re-attach)
+        r is Ok ==> registered(final(self).link.output_handle->Some_0)->Receiver_unsettled.id() == old(self).link.unsettled.id(),                   // [C02.wiring.relay-and-link-share-the-unsettled-map] (re-attach)
+        r is Ok ==> registered(final(self).link.output_handle->Some_0)->Receiver_flow_state.id() == old(self).link.flow_state.id(),                 // [C09.wiring.relay-and-link-share-the-flow-state] (re-attach)
+        r is Ok ==> registered(final(self).link.output_handle->Some_0)->Receiver_receiver_settle_mode == old(self).link.rcv_settle_mode,            // [C02.wiring.relay-knows-the-links-settle-mode] (re-attach)
+        final(self).link.unsettled == old(self).link.unsettled && final(self).link.flow_state == old(self).link.flow_state
+            && final(self).link.session_stop_reason == old(self).link.session_stop_reason && final(self).link.local_state == old(self).link.local_state,
+        final(self).session == old(self).session && final(self).outgoing == old(self).outgoing && final(self).buffer_size == old(self).buffer_size
+            && final(self).credit_mode == old(self).credit_mode && final(self).processed == old(self).processed,                                     // [C13.wiring.link-writes-to-its-session] (re-attach)
+//@@ end
+}
+
 } // verus!
 fn main() {}
